@@ -806,6 +806,28 @@ func rejections() *core.Family {
 	}
 }
 
+// one construct nested very deep (gen.DeepChains), inside the domain of the grammar (at most
+// four stacked prefix operators).
+func deepChains(tier string) *core.Family {
+	var all []gen.NamedExpr
+	for _, ne := range gen.DeepChains(gen.DeepDepths(tier)) {
+		if inDomain(ne.E) && !strings.Contains(ne.Name, "neg") && !strings.Contains(ne.Name, "not") {
+			all = append(all, ne)
+		}
+	}
+	return &core.Family{
+		Name: "deep-chains",
+		Desc: fmt.Sprintf("%d expressions: access / index / method chains, nested sets, records, method arguments, left- and right-nested binary operators, if chains at depths %v, 2 modes x 2 layouts", len(all), gen.DeepDepths(tier)),
+		N:    int64(len(all)),
+		Run: func(t *core.T, i int64) {
+			name := all[i].Name
+			checkPolicy(t, "deep:"+name[:strings.LastIndex(name, "/")], when(all[i].E), allModes, []Layout{LayoutTight, LayoutComments})
+			t.Nontrivial()
+			t.Sample(name)
+		},
+	}
+}
+
 func Check() *core.Check {
 	return &core.Check{
 		ID:        "C07",
@@ -821,9 +843,9 @@ func Check() *core.Check {
 		Families: func(tier string) []*core.Family {
 			lv := leaves()
 			if tier == "thorough" {
-				return []*core.Family{literals(), rejections(), builderTable(), paddingSlide(), heads(), depth1(lv), depth2(lv[:5], allLayouts), depth3()}
+				return []*core.Family{literals(), rejections(), builderTable(), paddingSlide(), deepChains(tier), heads(), depth1(lv), depth2(lv[:5], allLayouts), depth3()}
 			}
-			return []*core.Family{literals(), rejections(), builderTable(), paddingSlide(), heads(), depth1(lv[:5]), depth2(lv[:4], []Layout{LayoutTight, LayoutComments}), depth3()}
+			return []*core.Family{literals(), rejections(), builderTable(), paddingSlide(), deepChains(tier), heads(), depth1(lv[:5]), depth2(lv[:4], []Layout{LayoutTight, LayoutComments}), depth3()}
 		},
 	}
 }
